@@ -431,10 +431,10 @@ fn run_typed(cn: &Cont, code: u64, sz: u64, tc: u64, a: u64, b: u128, c: u128, d
         (0, 4) => typed::<u32>(cn, code, a, b, c, d, l),
         (0, 8) => typed::<u64>(cn, code, a, b, c, d, l),
         (0, 16) => typed::<u128>(cn, code, a, b, c, d, l),
-        (2, 17) => typed_wide::<[u8; 17]>(cn, code, a, b, c, d, l),
-        (2, 24) => typed_wide::<[u8; 24]>(cn, code, a, b, c, d, l),
-        (2, 31) => typed_wide::<[u8; 31]>(cn, code, a, b, c, d, l),
-        (2, 32) => typed_wide::<[u8; 32]>(cn, code, a, b, c, d, l),
+        (0 | 2, 17) => typed_wide::<[u8; 17]>(cn, code, a, b, c, d, l),
+        (0 | 2, 24) => typed_wide::<[u8; 24]>(cn, code, a, b, c, d, l),
+        (0 | 2, 31) => typed_wide::<[u8; 31]>(cn, code, a, b, c, d, l),
+        (0 | 2, 32) => typed_wide::<[u8; 32]>(cn, code, a, b, c, d, l),
         (14, 18) => typed_wide::<[u16; 9]>(cn, code, a, b, c, d, l),
         (16, 20) => typed_wide::<[u32; 5]>(cn, code, a, b, c, d, l),
         (18, 32) => typed_wide::<[u64; 4]>(cn, code, a, b, c, d, l),
